@@ -77,6 +77,25 @@ fn check(layout: &Layout, kind: &str, env: &Env, out: &mut ShardOut) {
 }
 
 fn random_basic(rng: &mut Rng, keys: &[KeyCode]) -> Layout {
+  let mut l = random_basic_plain(rng, keys);
+  // related mappings: the same trigger set in another order, and identity mappings (to == from) with a non-normal
+  // repeat (the shape the converter itself appends for an unmatched repeat-only entry), anywhere and at the end
+  if !l.mappings.is_empty() && rng.chance(1, 3) {
+    let src = rng.pick(&l.mappings).clone();
+    let mut f2 = src.from.clone();
+    if f2.len() >= 3 { let n = f2.len() - 1; let i = rng.below(n); let j = (i + 1 + rng.below(n - 1)) % n; f2.swap(i, j); }
+    let rep = if rng.chance(1, 2) { Repeat::Disabled } else { Repeat::Special { keys: { let k = rng.below(3); rng.sample(keys, k) }, delay_ms: 180, interval_ms: 30 } };
+    let m2 = match rng.below(3) {
+      0 => Mapping { from: f2.clone(), to: f2.clone(), repeat: rep, absorbing: vec![] },
+      1 => Mapping { from: src.from.clone(), to: src.from.clone(), repeat: rep, absorbing: vec![] },
+      _ => Mapping { from: f2.clone(), to: src.to.clone(), repeat: rep, absorbing: vec![] }
+    };
+    if rng.chance(2, 3) { l.mappings.push(m2); } else { let pos = rng.below(l.mappings.len() + 1); l.mappings.insert(pos, m2); }
+  }
+  l
+}
+
+fn random_basic_plain(rng: &mut Rng, keys: &[KeyCode]) -> Layout {
   let n = rng.range(0, 6);
   let mut ms = vec![];
   for _ in 0..n {
